@@ -30,7 +30,7 @@ REQUIRED = {
     "window_switches": 50, "contract_evals": 2000, "td7_runs": 1,
     "td7_releases_checked": 2,
 }
-TIMEOUT = {"quick": 900, "thorough": 3000}
+TIMEOUT = {"quick": 900, "thorough": 7000}
 ASSUMPTIONS = ["thresholds >= 1 (a counter that starts at 0 never crosses 0)",
                "episode lengths >= 1"]
 EXHAUSTIVE = False
@@ -44,9 +44,9 @@ def gen_cases(tier, seed):
         for thr in range(1, 7):
             cases.append(dict(kind="enum", window=w, thr=thr, max_eps=max_eps,
                               cost=1.0 if max_eps == 3 else 12.0))
-    for i in range(40 if tier == "quick" else 600):
+    for i in range(40 if tier == "quick" else 3000):
         cases.append(dict(kind="rand", seed=int(rng.integers(1 << 30)), cost=0.5))
-    n_td7 = 3 if tier == "quick" else 16
+    n_td7 = 3 if tier == "quick" else 48
     for i in range(n_td7):
         cases.append(dict(kind="td7", seed=int(rng.integers(1 << 30)), idx=i,
                           cost=30.0))
